@@ -481,7 +481,8 @@ def r01_234(chk, cr):
     if chk.want("R01.2"):
         chk.ob("R01.2", CR, q, "nsymops is the number of operations of the space group and natom the number of sites",
                defs["nsymops"].key() in ("len(self.space_group.symmetry_operations)", "len(self.space_group)", "len(self.symmetry_operations)")
-               and defs["natom"].key() in ("self.nsites", "len(self.site_atoms)", "len(self.asymmetric_unit)"),
+               and defs["natom"].key() in ("self.nsites", "len(self.site_atoms)", "len(self.asymmetric_unit)", "len(self.asymmetric_unit.atomic_numbers)",
+                                           "len(self.asymmetric_unit.positions)", "len(self.site_positions)", "self.asymmetric_unit.positions.shape[0]"),
                found=f"{defs['nsymops']} / {defs['natom']}")
 
         def masked_once(v):
@@ -522,7 +523,7 @@ def r01_234(chk, cr):
             chk.ob("R01.2", CR, q, f"column '{k}' is the op-major array of its kind filtered by the mask exactly once", ok,
                    fingerprint=f"column:{k}", found=str(v)[:160] if v is not None else "missing")
         chk.ob("R01.2", CR, q, "cart_pos is to_cartesian of the same masked array that is stored as frac_pos",
-               "cart_pos" in d and "frac_pos" in d and d["cart_pos"].key() == f"self.to_cartesian({d['frac_pos']})",
+               "cart_pos" in d and "frac_pos" in d and d["cart_pos"].key() in (f"self.to_cartesian({d['frac_pos']})", f"self.unit_cell.to_cartesian({d['frac_pos']})"),
                found=f"{d.get('cart_pos')} vs {d.get('frac_pos')}")
     if chk.want("R01.3"):
         w = wrap_of(defs["translated"])
@@ -628,7 +629,8 @@ def r01_234(chk, cr):
                "tolerance is not transitive)", alive, node=a.event.node, fingerprint="merge-alive", expected="if mask[i] and mask[j]: ...",
                found=[f"{'' if p else 'not '}{c}"[-80:] for c, p in a.guards])
         # only images of one and the same asymmetric-unit site are merged (two elements sharing a position are two sites)
-        same_site = any(w in gtxt for w in ("asym[", "uc_nums[", "asym_atom", "labels[", "numpy.tile(self.site_atoms", "numpy.tile(atoms"))
+        same_site = any(w in gtxt for w in ("asym[", "uc_nums[", "asym_atom", "labels[", "numpy.tile(self.site_atoms", "numpy.tile(atoms",
+                                               "numpy.tile(self.asymmetric_unit.atomic_numbers", "numpy.tile(self.asymmetric_unit.labels", "numpy.tile(numpy.arange("))
         # ... as an equality COL[i] == COL[j] of a site-identity column that holds on the way to the merge (not its negation)
         eq_ok = False
         for c, pol in a.guards:
